@@ -11,14 +11,14 @@ import fw
 
 ID = 'C16'
 LEVEL = 'proof'
-LEAN_TARGETS = ['BareProofs.C16']
+LEAN_TARGETS = ['BareProofs.C16', 'BareProofs.C16Round']
 DRIVER = 'drv_c16'
 DRIVER_ROOT = 'Drv.C16'
 GEN = ['Args', 'Regex']
 THEOREMS = [
     'C16.args_table', 'C16.regex_table',
     'C16.ord2ymd_sound', 'C16.ord2ymd_ymd2ord', 'C16.ymd2ord_inj', 'C16.year_range_iff',
-    'C16.dayUp_spec', 'C16.dayDown_spec',
+    'C16.dayUp_spec', 'C16.dayDown_spec', 'C16.dayAdjust_spec',
     'C16.datetimeNewCore_is_ordinal_arithmetic', 'C16.datetimeNew_is_ordinal_arithmetic',
     'C16.getters_roundtrip', 'C16.add_sub_ms', 'C16.add_none_iff', 'C16.add_add',
     'C16.iso_roundtrip_partial', 'C16.iso_offset_seconds_lost', 'C16.iso_reject', 'C16.iso_reject_fields',
@@ -364,9 +364,12 @@ def check_arith(ctx, st, case, got, resp, zone=None):
         ctx.witness('add-sub', key, want, {'(d+n)-d': got.get('lr'), '(n+d)-d': got.get('rl')})
 
 
+ARITH_RULE = ('(d + n) - d and (n + d) - d through evaluate_expression for integral n up to +-1e12 (float and int spellings), d from '
+              'datetimeNew on the quantifier ranges; in-process and again inside every TZ worker; non-trivial = n != 0')
+
+
 def stream_arith(ctx, n_cases, seed_name='dt-arith'):
-    st = ctx.stream('dt-arith', '(d + n) - d and (n + d) - d through evaluate_expression for integral n up to +-1e12 (float and int spellings), d from '
-                                'datetimeNew on the quantifier ranges; in-process and again inside every TZ worker; non-trivial = n != 0')
+    st = ctx.stream('dt-arith', ARITH_RULE)
     rng = ctx.rng(seed_name)
     cases = [(rec['args'], rec['n'], rec.get('int', False)) for rec in corpus('dt-arith')] + arith_cases(rng, n_cases)
     reqs = []
@@ -496,7 +499,7 @@ def stream_iso(ctx, n_rt, n_text, n_arith, zones=None):
     sp = ctx.stream('dt-iso-text', 'per TZ: datetimeISOParse on valid ISO texts (1-6 fraction digits, assorted offsets) and malformed ones (fixed list + '
                                    'random single-character mutations): strict validity oracle (invalid -> null, never an exception), value oracle via '
                                    'zoneinfo, model parser; non-trivial = text within edit distance 1 of a valid text or valid')
-    sa = ctx.stream('dt-arith', '')
+    sa = ctx.stream('dt-arith', ARITH_RULE)
     missing = [z for z in (zones or ZONES) if not os.path.exists(os.path.join(ZONEINFO_DIR, z))]
     if missing:
         ctx.notes.append('zones skipped (no zoneinfo file): ' + ', '.join(missing))
@@ -542,7 +545,7 @@ def stream_iso(ctx, n_rt, n_text, n_arith, zones=None):
             agree = r.get('zi_off') == r.get('os_off') and r.get('zi_exists') == r.get('libc_exists')
             off = r.get('zi_off')
             whole = off is not None and off % 60 == 0
-            tags = [zone, 'exists' if exists else 'gap', 'whole-minute' if whole else 'seconds-offset']
+            tags = [zone, 'exists' if exists else 'gap', 'whole-minute' if whole else 'seconds-offset'] + (['fold'] if r.get('fold') else [])
             if not agree:
                 tags.append('zoneinfo-vs-libc-differ')
             st.case(key, nontrivial=exists and whole and (off != 0 or d[6] != 0), tags=tags)
@@ -593,9 +596,9 @@ def stream_iso(ctx, n_rt, n_text, n_arith, zones=None):
 
 
 def streams(ctx):
-    stream_new(ctx, ctx.scale(6000, 150000), ctx.scale(600, 15000))
-    stream_arith(ctx, ctx.scale(3000, 60000))
-    stream_iso(ctx, ctx.scale(500, 12000), ctx.scale(250, 5000), ctx.scale(150, 3000))
+    stream_new(ctx, ctx.scale(25000, 250000), ctx.scale(2500, 25000))
+    stream_arith(ctx, ctx.scale(12000, 120000))
+    stream_iso(ctx, ctx.scale(2000, 20000), ctx.scale(800, 8000), ctx.scale(400, 4000))
 
 
 def search(ctx):
